@@ -1,6 +1,7 @@
 """C15 Bloom filter (DESIGN.md section 5 C15; A6)."""
 import bloom_rules as B
 import generic_lints
+import predicates
 import c19_rules
 
 
@@ -15,6 +16,7 @@ def run(facts, tier):
         ("bit operations", B.bitops, 3, "union/intersect/invert combine every byte and count the result byte on every iteration"),
         ("overload siblings", B.overload_siblings, 20, "update(T), query(T), query_and_update(T) canonicalise and hash identically"),
         ("reset completeness", lambda fa: c19_rules.reset_completeness(fa, ['bloom_filter_alloc']), 2, "every field a mutator modifies is re-initialised by reset() (a reused object equals a fresh one); reviewed exceptions are configuration fields"),
+        ("emptiness predicate support", lambda fa: predicates.obligations(fa, ['bloom_filter_alloc']), 2, "the emptiness predicate still consults every field it depended on in the reviewed tree (spec/predicates.json)"),
         ("tautologies", lambda fa: generic_lints.tautologies(fa, ('filters/',)), 2, "no comparison / assignment / min-max with two identical operands, no if-else with identical arms"),
         ("duplicate operands", lambda fa: generic_lints.duplicate_conjuncts(fa, ('filters/',)), 2, "no logical chain tests the same operand twice (copy-paste of the wrong peer)"),
         ("forwarding peers", lambda fa: generic_lints.forwarding_peers(fa, ('filters/',)), 18, "one-statement typed overloads forward to an overload of their own name, never to the head of a sibling family (wrong peer)"),
